@@ -1,14 +1,15 @@
 /-
-Lemmas/RelocSigned.lean — relocation (C18-R1), part 9 (repair batch B2): `label + N` / `label - N` where `N` is a
-SIGNED constant (a number written or defined by an EQU with a minus sign counts negatively since B2).
+Lemmas/RelocSigned.lean — relocation (C18-R1), part 9 (repair batches B2, B3): `label + N` / `label - N` where `N`
+is a SIGNED constant (a number written or defined by an EQU with a minus sign counts negatively since B2).
 
-* `LabelNum as l r t a k nn`: the two operands `l`, `r` of a label expression are a label (statement index `t`,
-  address `a` in the layout `as`) and a number of magnitude `k`, negative iff `nn`; the constant is
-  `signedK k nn`.
+* `LabelNum as l r op t a k nn` (Lemmas/RelocLabel.lean): the two operands `l`, `r` of a label expression are a label
+  (statement index `t`, address `a` in the layout `as`) and a number of magnitude `k`, negative iff `nn`; the constant is
+  `signedK k nn`; the label is the LEFT operand unless `op` is `+` (`LabelSide`: since B3 `calculate_address_offset`
+  combines the operands in the written order).
 * closed forms of `addrOffset`, `fixOne`, `fitWidth`, `fixFit` on such an expression — what the model really
-  does: `label + c` is NOT reduced modulo `$10000` by `calculate_address_offset` (above `$FFFF` it is rejected,
-  below zero it is a NEGATIVE number), `label - c` is; a 16-bit operand field (`fit_operand_width`) then holds
-  the value modulo `$10000` as long as it is in `-$8000 .. $FFFF`.
+  does since B3: for BOTH operators the result `z = a ± c` is rejected above `$FFFF` and reduced modulo `$10000`
+  below zero, so the value is `z mod $10000` whenever `z ≤ $FFFF`; a 16-bit operand field (`fit_operand_width`)
+  then holds exactly that value.
 * the classes `NumExpr` (hence `Moved`, `Unmoved`) in arithmetic terms: `numExpr_plus_iff`, `numExpr_minus_iff`.
 -/
 import CoCoVerif.Lemmas.RelocAll
@@ -16,67 +17,40 @@ import CoCoVerif.Lemmas.RelocAll
 namespace CoCo.Asm
 open CoCo
 
-/-! ### the operands of `label ± c` -/
-
-/-- `l`, `r` are a label and a number (in either order): the label is statement `t`, at address `a` in the layout
-`as`; the number has magnitude `k` and is negative iff `nn` -/
-structure LabelNum (as : List Stmt) (l r : Value) (t a k : Nat) (nn : Bool) : Prop where
-  other : ∃ hh mm, (if l.isAddress then r else l) = .numeric k hh mm nn
-  idx : (if l.isAddress then l.int? else r.int?) = some t
-  addr : addrIntOf as t = some a
-
-/-- the usual spelling: `label ± number` -/
-theorem LabelNum.mk' {as : List Stmt} {t a k : Nat} {m0 : Mode} {hh : Option Nat} {mm : Mode} {nn : Bool}
-    (h : addrIntOf as t = some a) : LabelNum as (.address t m0) (.numeric k hh mm nn) t a k nn :=
-  ⟨⟨hh, mm, rfl⟩, rfl, h⟩
-
-/-- in the moved layout the label is `D` higher, the constant is the same -/
-theorem LabelNum.reloc {D : Nat} {as as' : List Stmt} {l r : Value} {t a k : Nat} {nn : Bool}
-    (hpw : PW (AddrShiftI D) as as') (h : LabelNum as l r t a k nn) : LabelNum as' l r t (a + D) k nn :=
-  ⟨h.other, h.idx, by rw [addrIntOf_reloc hpw, h.addr]; rfl⟩
-
-/-- `calculate_address_offset` on `label ± c`: the arithmetic of `addrCombine` on the label's address and the
-SIGNED constant -/
-theorem addrOffset_labelNum {as : List Stmt} {l r : Value} {t a k : Nat} {nn : Bool}
-    (h : LabelNum as l r t a k nn) (op : Char) (m : Mode) (ae : Bool) :
-    addrOffset as (.expr l r op m ae) = addrCombine op a (signedK k nn) := by
-  obtain ⟨⟨hh, mm, ho⟩, hi, ha⟩ := h
-  rw [addrOffset_expr, ho, hi]
-  simp only [addrOther_numeric_signed]
-  rw [ha]
-
 /-! ### the class `NumExpr` in arithmetic terms -/
 
 section numExpr
 variable {D : Nat} {as : List Stmt} {l r : Value} {t a k : Nat} {nn : Bool}
 
-theorem NumExpr.of_labelNum {op : Char} (h : LabelNum as l r t a k nn) (m : Mode) (hop : op = '+' ∨ op = '-')
+theorem NumExpr.of_labelNum {op : Char} (h : LabelNum as l r op t a k nn) (m : Mode) (hop : op = '+' ∨ op = '-')
     (hb : ∀ v, addrCombine op a (signedK k nn) = .ok v →
       ∃ z, v = .numeric z (some 4) .extended false ∧ z + D ≤ 65535) :
     NumExpr D as (.expr l r op m true) := by
   obtain ⟨hh, mm, ho⟩ := h.other
-  refine ⟨l, r, op, m, k, hh, mm, nn, rfl, ho, hop, ?_⟩
+  refine ⟨l, r, op, m, k, hh, mm, nn, rfl, ho, hop, h.side, ?_⟩
   rw [addrOffset_labelNum h]
   exact hb
 
-theorem NumExpr.bound_labelNum {op : Char} {m : Mode} (h : LabelNum as l r t a k nn)
+theorem NumExpr.bound_labelNum {op : Char} {m : Mode} (h : LabelNum as l r op t a k nn)
     (hc : NumExpr D as (.expr l r op m true)) :
     ∀ v, addrCombine op a (signedK k nn) = .ok v → ∃ z, v = .numeric z (some 4) .extended false ∧ z + D ≤ 65535 := by
-  obtain ⟨l1, r1, op1, m1, k1, hh1, mm1, nn1, he, _, _, hb⟩ := hc
+  obtain ⟨l1, r1, op1, m1, k1, hh1, mm1, nn1, he, _, _, _, hb⟩ := hc
   rw [addrOffset_labelNum h] at hb
   exact hb
 
 /-- `label + c` (SIGNED `c`) is in the class iff — unless it is rejected in the original layout already, being above
-`$FFFF` — its value `a + c` is not negative and `a + c + D` is at most `$FFFF` -/
-theorem numExpr_plus_iff (h : LabelNum as l r t a k nn) (m : Mode) :
+`$FFFF` — its value `(a + c) mod $10000`, moved by `D`, is at most `$FFFF` (since B3 a negative sum is reduced
+modulo `$10000`, exactly like `label - c`) -/
+theorem numExpr_plus_iff (h : LabelNum as l r '+' t a k nn) (m : Mode) :
     NumExpr D as (.expr l r '+' m true) ↔
-      ((a : Int) + signedK k nn ≤ 65535 → 0 ≤ (a : Int) + signedK k nn ∧ (a : Int) + signedK k nn + D ≤ 65535) := by
+      ((a : Int) + signedK k nn ≤ 65535 → ((a : Int) + signedK k nn) % 65536 + D ≤ 65535) := by
+  have h0 : 0 ≤ ((a : Int) + signedK k nn) % 65536 := Int.emod_nonneg _ (by decide)
   constructor
   · intro hc hle
     have hb := hc.bound_labelNum h
     rw [addrCombine_plus_int, if_pos hle] at hb
     obtain ⟨z, hz, hzD⟩ := hb _ rfl
-    simp only [Value.numeric.injEq, true_and, decide_eq_false_iff_not] at hz
+    simp only [Value.numeric.injEq, and_true] at hz
     omega
   · intro hc
     refine NumExpr.of_labelNum h m (.inl rfl) ?_
@@ -84,21 +58,20 @@ theorem numExpr_plus_iff (h : LabelNum as l r t a k nn) (m : Mode) :
     rw [addrCombine_plus_int] at hv
     split at hv
     · rename_i hle
-      obtain ⟨h0, h1⟩ := hc hle
       cases hv
-      refine ⟨((a : Int) + signedK k nn).natAbs, ?_, by omega⟩
-      have : ¬ ((a : Int) + signedK k nn < 0) := by omega
-      simp [this]
+      exact ⟨_, rfl, by have := hc hle; omega⟩
     · cases hv
 
-/-- `label - c` (SIGNED `c`) is in the class iff its value `(a - c) mod $10000`, moved by `D`, is at most `$FFFF` -/
-theorem numExpr_minus_iff (h : LabelNum as l r t a k nn) (m : Mode) :
-    NumExpr D as (.expr l r '-' m true) ↔ ((a : Int) - signedK k nn) % 65536 + D ≤ 65535 := by
+/-- `label - c` (SIGNED `c`) is in the class iff — unless it is rejected in the original layout, being above `$FFFF`
+(since B3; possible with a negative `c`) — its value `(a - c) mod $10000`, moved by `D`, is at most `$FFFF` -/
+theorem numExpr_minus_iff (h : LabelNum as l r '-' t a k nn) (m : Mode) :
+    NumExpr D as (.expr l r '-' m true) ↔
+      ((a : Int) - signedK k nn ≤ 65535 → ((a : Int) - signedK k nn) % 65536 + D ≤ 65535) := by
   have h0 : 0 ≤ ((a : Int) - signedK k nn) % 65536 := Int.emod_nonneg _ (by decide)
   constructor
-  · intro hc
+  · intro hc hle
     have hb := hc.bound_labelNum h
-    rw [addrCombine_minus_int] at hb
+    rw [addrCombine_minus_int, if_pos hle] at hb
     obtain ⟨z, hz, hzD⟩ := hb _ rfl
     simp only [Value.numeric.injEq, and_true] at hz
     omega
@@ -106,8 +79,11 @@ theorem numExpr_minus_iff (h : LabelNum as l r t a k nn) (m : Mode) :
     refine NumExpr.of_labelNum h m (.inr rfl) ?_
     intro v hv
     rw [addrCombine_minus_int] at hv
-    cases hv
-    exact ⟨_, rfl, by omega⟩
+    split at hv
+    · rename_i hle
+      cases hv
+      exact ⟨_, rfl, by have := hc hle; omega⟩
+    · cases hv
 
 end numExpr
 
@@ -118,42 +94,55 @@ variable {as : List Stmt} {l r : Value} {t a k : Nat} {nn : Bool} {s : Stmt} {m 
 
 /-- `fix_addresses` on a statement whose operand is `label ± c` (no PCR): the operand field is the result of
 `addrCombine` -/
-theorem fixOne_labelNum (h : LabelNum as l r t a k nn) (i : Nat) {op : Char}
+theorem fixOne_labelNum {op : Char} (h : LabelNum as l r op t a k nn) (i : Nat)
     (hk : (s.operand.kind == .relative) = false) (hv : s.operand.value = .expr l r op m true)
     (hn : s.pkg.needsRes = false) :
     fixOne as i s = (addrCombine op a (signedK k nn)).map (withAdditional s) := by
   rw [fixOne_expr_eq _ _ _ hk hv hn, addrOffset_labelNum h]
   cases addrCombine op a (signedK k nn) <;> rfl
 
+/-- `label + c`, value at most `$FFFF`: the value modulo `$10000` -/
+theorem fixOne_label_plus_le (h : LabelNum as l r '+' t a k nn) (i : Nat)
+    (hk : (s.operand.kind == .relative) = false) (hv : s.operand.value = .expr l r '+' m true)
+    (hn : s.pkg.needsRes = false) (h1 : (a : Int) + signedK k nn ≤ 65535) :
+    fixOne as i s =
+      .ok (withAdditional s (.numeric (((a : Int) + signedK k nn) % 65536).toNat (some 4) .extended false)) := by
+  rw [fixOne_labelNum h i hk hv hn, addrCombine_plus_int, if_pos h1]; rfl
+
 /-- `label + c`, value in `0 .. $FFFF` -/
-theorem fixOne_label_plus (h : LabelNum as l r t a k nn) (i : Nat)
+theorem fixOne_label_plus (h : LabelNum as l r '+' t a k nn) (i : Nat)
     (hk : (s.operand.kind == .relative) = false) (hv : s.operand.value = .expr l r '+' m true)
     (hn : s.pkg.needsRes = false) (h0 : 0 ≤ (a : Int) + signedK k nn) (h1 : (a : Int) + signedK k nn ≤ 65535) :
     fixOne as i s = .ok (withAdditional s (.numeric ((a : Int) + signedK k nn).toNat (some 4) .extended false)) := by
   rw [fixOne_labelNum h i hk hv hn, addrCombine_plus_int_nonneg h0 h1]; rfl
 
-/-- `label + c`, value below zero: a NEGATIVE number is stored (there is no reduction modulo `$10000` here) -/
-theorem fixOne_label_plus_neg (h : LabelNum as l r t a k nn) (i : Nat)
+/-- `label + c`, value below zero: reduced modulo `$10000` (since B3; before, a NEGATIVE number was stored) -/
+theorem fixOne_label_plus_neg (h : LabelNum as l r '+' t a k nn) (i : Nat)
     (hk : (s.operand.kind == .relative) = false) (hv : s.operand.value = .expr l r '+' m true)
     (hn : s.pkg.needsRes = false) (h0 : (a : Int) + signedK k nn < 0) :
-    fixOne as i s = .ok (withAdditional s (.numeric (-((a : Int) + signedK k nn)).toNat (some 4) .extended true)) := by
-  rw [fixOne_labelNum h i hk hv hn, addrCombine_plus_int, if_pos (by omega)]
-  have e : ((a : Int) + signedK k nn).natAbs = (-((a : Int) + signedK k nn)).toNat := by omega
-  simp [h0, e]
+    fixOne as i s =
+      .ok (withAdditional s (.numeric (((a : Int) + signedK k nn) % 65536).toNat (some 4) .extended false)) :=
+  fixOne_label_plus_le h i hk hv hn (by omega)
 
 /-- `label + c`, value above `$FFFF`: rejected -/
-theorem fixOne_label_plus_big (h : LabelNum as l r t a k nn) (i : Nat)
+theorem fixOne_label_plus_big (h : LabelNum as l r '+' t a k nn) (i : Nat)
     (hk : (s.operand.kind == .relative) = false) (hv : s.operand.value = .expr l r '+' m true)
     (hn : s.pkg.needsRes = false) (h1 : 65535 < (a : Int) + signedK k nn) : fixOne as i s = .diag := by
   rw [fixOne_labelNum h i hk hv hn, addrCombine_plus_int, if_neg (by omega)]; rfl
 
-/-- `label - c`: the value modulo `$10000` -/
-theorem fixOne_label_minus (h : LabelNum as l r t a k nn) (i : Nat)
+/-- `label - c`, value at most `$FFFF`: the value modulo `$10000` -/
+theorem fixOne_label_minus (h : LabelNum as l r '-' t a k nn) (i : Nat)
     (hk : (s.operand.kind == .relative) = false) (hv : s.operand.value = .expr l r '-' m true)
-    (hn : s.pkg.needsRes = false) :
+    (hn : s.pkg.needsRes = false) (h1 : (a : Int) - signedK k nn ≤ 65535) :
     fixOne as i s =
       .ok (withAdditional s (.numeric (((a : Int) - signedK k nn) % 65536).toNat (some 4) .extended false)) := by
-  rw [fixOne_labelNum h i hk hv hn, addrCombine_minus_int]; rfl
+  rw [fixOne_labelNum h i hk hv hn, addrCombine_minus_int, if_pos h1]; rfl
+
+/-- `label - c`, value above `$FFFF` (a negative `c`): rejected (since B3) -/
+theorem fixOne_label_minus_big (h : LabelNum as l r '-' t a k nn) (i : Nat)
+    (hk : (s.operand.kind == .relative) = false) (hv : s.operand.value = .expr l r '-' m true)
+    (hn : s.pkg.needsRes = false) (h1 : 65535 < (a : Int) - signedK k nn) : fixOne as i s = .diag := by
+  rw [fixOne_labelNum h i hk hv hn, addrCombine_minus_int, if_neg (by omega)]; rfl
 
 end fixOne
 
@@ -214,54 +203,50 @@ theorem fitWidth_field4 {s : Stmt} (hf : Field4 s) {n : Nat} {h : Option Nat} {m
 section fixFit
 variable {as : List Stmt} {l r : Value} {t a k : Nat} {nn : Bool} {s : Stmt} {m : Mode}
 
-/-- `fix_addresses; fit_operand_width` on `label + c` in a four-digit field: accepted iff the value `a + c` is in
-`-$8000 .. $FFFF`; the field holds it modulo `$10000` -/
-theorem fixFit_label_plus (h : LabelNum as l r t a k nn) (i : Nat) (hf : Field4 s)
+/-- `fit_operand_width` on a four-digit field that holds a value `x` in `0 .. $FFFF` -/
+theorem fitWidth_field4_nat {s : Stmt} (hf : Field4 s) {x : Nat} (hx : x < 65536) :
+    fitWidth (withAdditional s (.numeric x (some 4) .extended false)) =
+      .ok (withAdditional s (.numeric x (some 4) .extended false)) := by
+  rw [fitWidth_field4 (hf.withAdditional _) (show (withAdditional s _).pkg.additional = _ from rfl)]
+  simp only [fitInt, Bool.false_eq_true, if_false]
+  rw [if_pos ⟨by omega, by omega⟩]
+  have e : ((x : Nat) : Int) % 65536 = x := by omega
+  rw [e]; rfl
+
+/-- `fix_addresses; fit_operand_width` on `label + c` in a four-digit field: accepted iff the value `a + c` is at
+most `$FFFF`; the field holds it modulo `$10000` (since B3 there is no lower bound any more: the reduction happens
+in `calculate_address_offset` already) -/
+theorem fixFit_label_plus (h : LabelNum as l r '+' t a k nn) (i : Nat) (hf : Field4 s)
     (hk : (s.operand.kind == .relative) = false) (hv : s.operand.value = .expr l r '+' m true)
     (hn : s.pkg.needsRes = false) :
     fixFit as i s =
-      if -32768 ≤ (a : Int) + signedK k nn ∧ (a : Int) + signedK k nn ≤ 65535 then
+      if (a : Int) + signedK k nn ≤ 65535 then
         .ok (withAdditional s (.numeric (((a : Int) + signedK k nn) % 65536).toNat (some 4) .extended false))
       else .diag := by
   unfold fixFit
   by_cases h1 : (a : Int) + signedK k nn ≤ 65535
-  · by_cases h0 : 0 ≤ (a : Int) + signedK k nn
-    · rw [fixOne_label_plus h i hk hv hn h0 h1]
-      dsimp only
-      rw [fitWidth_field4 (hf.withAdditional _) (show (withAdditional s _).pkg.additional = _ from rfl)]
-      simp only [fitInt, Bool.false_eq_true, if_false]
-      rw [if_pos ⟨by omega, by omega⟩, if_pos ⟨by omega, h1⟩]
-      have e : ((((a : Int) + signedK k nn).toNat : Nat) : Int) = (a : Int) + signedK k nn := by omega
-      rw [e]; rfl
-    · rw [fixOne_label_plus_neg h i hk hv hn (by omega)]
-      dsimp only
-      rw [fitWidth_field4 (hf.withAdditional _) (show (withAdditional s _).pkg.additional = _ from rfl)]
-      simp only [fitInt, if_true]
-      have e : -(((-((a : Int) + signedK k nn)).toNat : Nat) : Int) = (a : Int) + signedK k nn := by omega
-      rw [e]
-      by_cases h2 : -32768 ≤ (a : Int) + signedK k nn
-      · rw [if_pos ⟨h2, by omega⟩, if_pos ⟨h2, h1⟩]; rfl
-      · rw [if_neg (fun hc => h2 hc.1), if_neg (fun hc => h2 hc.1)]
-  · rw [fixOne_label_plus_big h i hk hv hn (by omega), if_neg (fun hc => h1 hc.2)]
+  · have p0 : 0 ≤ ((a : Int) + signedK k nn) % 65536 := Int.emod_nonneg _ (by decide)
+    have p1 : ((a : Int) + signedK k nn) % 65536 < 65536 := Int.emod_lt_of_pos _ (by decide)
+    rw [fixOne_label_plus_le h i hk hv hn h1, if_pos h1]
+    exact fitWidth_field4_nat hf (by omega)
+  · rw [fixOne_label_plus_big h i hk hv hn (by omega), if_neg h1]
 
-/-- `fix_addresses; fit_operand_width` on `label - c` in a four-digit field: always accepted, the field holds
-`(a - c) mod $10000` -/
-theorem fixFit_label_minus (h : LabelNum as l r t a k nn) (i : Nat) (hf : Field4 s)
+/-- `fix_addresses; fit_operand_width` on `label - c` in a four-digit field: accepted iff `a - c` is at most `$FFFF`
+(since B3), the field holds `(a - c) mod $10000` -/
+theorem fixFit_label_minus (h : LabelNum as l r '-' t a k nn) (i : Nat) (hf : Field4 s)
     (hk : (s.operand.kind == .relative) = false) (hv : s.operand.value = .expr l r '-' m true)
     (hn : s.pkg.needsRes = false) :
     fixFit as i s =
-      .ok (withAdditional s (.numeric (((a : Int) - signedK k nn) % 65536).toNat (some 4) .extended false)) := by
-  have h0 : 0 ≤ ((a : Int) - signedK k nn) % 65536 := Int.emod_nonneg _ (by decide)
-  have h1 : ((a : Int) - signedK k nn) % 65536 < 65536 := Int.emod_lt_of_pos _ (by decide)
+      if (a : Int) - signedK k nn ≤ 65535 then
+        .ok (withAdditional s (.numeric (((a : Int) - signedK k nn) % 65536).toNat (some 4) .extended false))
+      else .diag := by
   unfold fixFit
-  rw [fixOne_label_minus h i hk hv hn]
-  dsimp only
-  rw [fitWidth_field4 (hf.withAdditional _) (show (withAdditional s _).pkg.additional = _ from rfl)]
-  simp only [fitInt, Bool.false_eq_true, if_false]
-  rw [if_pos ⟨by omega, by omega⟩]
-  generalize ((a : Int) - signedK k nn) % 65536 = z at h0 h1
-  have e : ((z.toNat : Nat) : Int) % 65536 = z := by omega
-  rw [e]; rfl
+  by_cases h1 : (a : Int) - signedK k nn ≤ 65535
+  · have p0 : 0 ≤ ((a : Int) - signedK k nn) % 65536 := Int.emod_nonneg _ (by decide)
+    have p1 : ((a : Int) - signedK k nn) % 65536 < 65536 := Int.emod_lt_of_pos _ (by decide)
+    rw [fixOne_label_minus h i hk hv hn h1, if_pos h1]
+    exact fitWidth_field4_nat hf (by omega)
+  · rw [fixOne_label_minus_big h i hk hv hn (by omega), if_neg h1]
 
 end fixFit
 
